@@ -262,12 +262,11 @@ impl Link {
         );
     }
 
-    /// True if a program line starts at the very end of the code (it compiled to nothing).
+    /// True if something can branch to the very end of the code: a program line that
+    /// compiled to nothing, or a local label (the ELSE of a trailing IF, the exit of a loop).
     pub fn has_line_at_end(&self) -> bool {
         let end = self.ops.len();
-        self.symbols
-            .range(0..=LineNumber::max_value() as Symbol)
-            .any(|(_, (op_addr, _))| *op_addr == end)
+        self.symbols.values().any(|(op_addr, _)| *op_addr == end)
     }
 
     pub fn line_number_for(&self, op_addr: Address) -> LineNumber {
